@@ -1,4 +1,136 @@
-From LR Require Import lib.Base model.GoTime.
-Theorem C20_placeholder : True.
-Proof. exact I. Qed.
-Print Assumptions C20_placeholder.
+(* C20 — Timestamp text is parsed to the instant it denotes, for every supported format (partial).
+   Property theorems only (proofs in proofs/GoTimeP.v, RegexP.v, DateFmtP.v, LqlTimeP.v, C20TablesP.v).
+
+   model/DateFmt.v   the terms substitution of pkg/scanner/parser/date (dateMap / regexpMap in table order),
+                     NewParser (compile_with: layout scanner + regexp parser + the three flags), Format.Parse
+                     (parse_one: unanchored leftmost-first regexp search, time.Parse of the layout, adjustYear /
+                     adjustDate), parser.Parse (parse_all: first format that parses);
+   model/Regex.v     parser and backtracking matcher for the regexp subset the table generates;
+   model/GoTime.v    time.Parse for the layout elements the table generates, civil date <-> Unix days;
+   model/LqlTime.v   lql.parseLqlDateTime (trim, lower-case, relative, constants, format list, integer);
+   model/DateOk.v    the text a log producer writes for a civil time in a format (render_toks over the user tokens),
+                     the instant that text denotes (denotes), and the decidable side condition format_ok;
+   gen/DateTables.v  the three tables, REGENERATED from the Go literals on every run (tools/gen_tables_c20.py):
+                     the reflective lemmas of proofs/C20TablesP.v are re-run by vm_compute on the tables the
+                     code has now, and K (case KTables) compares the generated tables with the running code's.
+
+   `now` is the current date (year, month, day): the only use the code makes of the clock for absolute texts. *)
+From LR Require Import lib.Base model.GoTime model.Regex model.DateFmt model.DateOk model.LqlTime gen.DateTables.
+From LR Require Import proofs.GoTimeP proofs.RegexP proofs.DateFmtP proofs.LqlTimeP proofs.C20TablesP.
+Open Scope Z_scope.
+
+(* ---- the calendar arithmetic under every theorem below: civil date <-> day number, all of Z, both directions ---- *)
+Theorem C20_civil_days : forall y m d, valid_date y m d -> civil_from_days (days_from_civil y m d) = (y, m, d).
+Proof. exact civil_days_roundtrip. Qed.
+Print Assumptions C20_civil_days.
+
+Theorem C20_days_civil : forall z, let '(y, m, d) := civil_from_days z in valid_date y m d /\ days_from_civil y m d = z.
+Proof. exact days_civil_roundtrip. Qed.
+Print Assumptions C20_days_civil.
+
+(* ---- one format parses its own texts ----
+   Full statement: for EVERY format of both tables (collector and LQL), every civil time the format can express
+   (years 1000..2999; 1969..2068 for a two-digit year; every month, day, hour, minute, second, millisecond, numeric
+   offset, zone name of the table) and every continuation of the line that starts with a separator (or nothing):
+   Format.Parse of the format on  text ++ rest  is the instant the text denotes. *)
+Definition C20_self_statement : Prop := self_statement.
+
+(* refuted on the tables as they are: the DDDD regexp [A-Z][a-z]{5,7} rejects the nine-letter "Wednesday" *)
+Theorem C20_self_refuted : ~ C20_self_statement.
+Proof. exact self_refuted. Qed.
+Print Assumptions C20_self_refuted.
+
+(* ... and proved for every other format of both tables, for all civil times and continuations, with no enumeration
+   of instants: format_ok (decidable, evaluated on the generated tables) implies the statement (format_ok_sound) *)
+Theorem C20_self_partial : forall f, In f all_formats -> f <> dddd_format ->
+  exists l cf, tokens terms_table f = Some l /\ compile_with terms_table f = Some cf /\
+    forall now c rest, civil_ok l c -> sep_ok rest ->
+      parse_one now cf (render_toks l c ++ rest) = Some (denotes now l c).
+Proof. exact self_of_table. Qed.
+Print Assumptions C20_self_partial.
+
+(* the side condition is not specific to these tables: for ANY terms table and format that pass format_ok *)
+Theorem C20_format_ok_sound : forall terms f l cf,
+  format_ok terms f = true -> tokens terms f = Some l -> compile_with terms f = Some cf ->
+  forall now c rest, civil_ok l c -> sep_ok rest ->
+  parse_one now cf (render_toks l c ++ rest) = Some (denotes now l c).
+Proof. exact format_ok_sound. Qed.
+Print Assumptions C20_format_ok_sound.
+
+(* ---- the whole list: first match ----
+   Full statement: parser.Parse over the whole list returns, for the text of the k-th format, the instant it denotes. *)
+Definition C20_first_match_statement : Prop := first_match_statement known_formats.
+
+(* refuted for the collector's list: "2019/05/25 15:07:09" (format 28, YYYY/MM/DD HH:mm:ss) is claimed by the earlier,
+   unanchored "D/M/YY HH:mm" (format 19) through the substring "19/05/25 15:07" and read as 2025-05-19 15:07:00 *)
+Theorem C20_first_match_refuted : ~ C20_first_match_statement.
+Proof. exact first_match_refuted. Qed.
+Print Assumptions C20_first_match_refuted.
+
+(* proved for any list drawn from the tables, any k, any civil time, any continuation, under the one hypothesis that
+   no EARLIER format of the list parses the text: then the k-th format is the one that answers, with the right instant *)
+Theorem C20_first_match_partial : forall formats, (forall f, In f formats -> In f all_formats) ->
+  forall k f, nth_error formats k = Some f -> f <> dddd_format ->
+  forall now c rest, civil_ok (the_tokens f) c -> sep_ok rest ->
+  let text := render_toks (the_tokens f) c ++ rest in
+  (forall j fj, (j < k)%nat -> nth_error formats j = Some fj ->
+     exists cj, compile_with terms_table fj = Some cj /\ parse_one now cj text = None) ->
+  parse_all now (map (compile_with terms_table) formats) text = Some (k, denotes now (the_tokens f) c).
+Proof. exact first_match_partial. Qed.
+Print Assumptions C20_first_match_partial.
+
+(* ---- LQL literals ----
+   Full statement: an absolute literal written in the k-th LQL format is the Unix nanoseconds of the instant it denotes. *)
+Definition C20_lql_abs_statement : Prop := lql_abs_statement.
+
+(* refuted: parseLqlDateTime lower-cases the literal first; "2019-05-25T15:07:09" becomes "...t..." and is read as
+   midnight by the later date-only format *)
+Theorem C20_lql_abs_refuted : ~ C20_lql_abs_statement.
+Proof. exact lql_abs_refuted. Qed.
+Print Assumptions C20_lql_abs_refuted.
+
+(* proved for literals that survive trimming and lower-casing, are neither relative nor a constant, and are not
+   claimed by an earlier format *)
+Theorem C20_lql_abs_partial : forall k f, nth_error lql_formats k = Some f -> f <> dddd_format ->
+  forall now c lit, civil_ok (the_tokens f) c ->
+  let text := render_toks (the_tokens f) c in
+  to_lower (trim_sp lit) = text ->
+  parse_relative text = None -> index_of text const_names 0 = None ->
+  (forall j fj, (j < k)%nat -> nth_error lql_formats j = Some fj ->
+     exists cj, compile_with terms_table fj = Some cj /\ parse_one now cj text = None) ->
+  lql_parse now lql_list lit = LAbs (nanos (denotes now (the_tokens f) c)).
+Proof. exact lql_abs_partial. Qed.
+Print Assumptions C20_lql_abs_partial.
+
+(* an integer literal is exactly that many Unix nanoseconds: every int64, both signs; no date format of the LQL table
+   can parse a text made of digits with an optional sign (decided on the generated table), so the integer branch answers *)
+Theorem C20_int : forall now v, in_int64 v = true -> lql_parse now lql_list (format_int v) = LAbs v.
+Proof.
+  intros now v Hv. apply int_literal; [|exact Hv].
+  unfold lql_list. rewrite <- lql_c_eq. exact lql_int_safe.
+Qed.
+Print Assumptions C20_int.
+
+(* relative literals  -<decimal><m|h|d>  denote now minus a duration that is exact over the rationals (truncated to
+   a nanosecond), never negative, and monotone in the decimal *)
+Theorem C20_relative_literal : forall dec u m sc mult, parse_dec dec = Some (m, sc) -> unit_nanos u = Some mult ->
+  parse_relative (x2d :: dec ++ [u]) = Some (rel_duration m sc mult).
+Proof. exact relative_literal. Qed.
+Print Assumptions C20_relative_literal.
+
+Theorem C20_relative_monotone : forall m sc m' sc' mult, 0 < mult -> 0 <= m -> 0 <= m' ->
+  m * 10 ^ Z.of_nat sc' <= m' * 10 ^ Z.of_nat sc ->
+  0 <= rel_duration m sc mult <= rel_duration m' sc' mult.
+Proof.
+  intros m sc m' sc' mult H1 H2 H3 H4. split; [apply rel_nonneg; assumption|apply rel_monotone; assumption].
+Qed.
+Print Assumptions C20_relative_monotone.
+
+(* ---- non-vacuity ---- *)
+(* a Saturday afternoon satisfies civil_ok for every token list, a format of the table satisfies the hypotheses of
+   C20_self_partial, and the earlier-format hypothesis of C20_first_match_partial holds for the first format *)
+Example C20_civil_ok_nonvacuous : forall l, civil_ok l w_sat.
+Proof. exact civil_ok_sat. Qed.
+
+Example C20_self_nonvacuous : In f_iso all_formats /\ f_iso <> dddd_format.
+Proof. split; [apply in_by_eqb; vm_compute; reflexivity|discriminate]. Qed.
